@@ -58,6 +58,7 @@ type genCtx struct {
 	all     []string          // all struct models (usable behind pointer / slice / map)
 	named   map[string]string // named non-struct types -> underlying class
 	namedL  []string
+	plain   []string // unannotated struct types
 	seq     int
 }
 
@@ -72,6 +73,9 @@ func (g *genCtx) typeExpr(label string, depth int, indirect bool) (string, strin
 	}
 	if len(g.structs) > 0 || (indirect && len(g.all) > 0) {
 		kinds = append(kinds, "model", "model", "model")
+	}
+	if len(g.plain) > 0 {
+		kinds = append(kinds, "plain")
 	}
 	switch pick(g.t, label+"_k", kinds) {
 	case "basic":
@@ -102,6 +106,8 @@ func (g *genCtx) typeExpr(label string, depth int, indirect bool) (string, strin
 	case "named":
 		n := pick(g.t, label+"_named", g.namedL)
 		return n, "named(" + g.named[n] + ")"
+	case "plain":
+		return pick(g.t, label+"_plain", g.plain), "unannotated-struct"
 	case "model":
 		pool := g.structs
 		if indirect {
@@ -161,6 +167,22 @@ func gen(t *rapid.T) Case {
 		if annotated {
 			c.Models = append(c.Models, ModelInfo{Name: name, Class: "named:" + cls})
 		}
+	}
+	// a named type defined on another named type
+	if len(g.namedL) > 0 && chance(t, "namednamed", 35) {
+		base := pick(t, "namednamed_base", g.namedL)
+		if !strings.HasPrefix(g.named[base], "alias=") {
+			fmt.Fprintf(&sb, "// NamedOnNamed is a named type defined on a named type.\ntype NamedOnNamed %s\n\n", base)
+			g.named["NamedOnNamed"] = "named(" + g.named[base] + ")"
+			g.namedL = append(g.namedL, "NamedOnNamed")
+		}
+	}
+	// struct types that carry no annotation but are used by models
+	np := rapid.IntRange(0, 2).Draw(t, "nplain")
+	for i := 0; i < np; i++ {
+		name := fmt.Sprintf("Plain%d", i)
+		fmt.Fprintf(&sb, "// %s is a struct without annotation.\ntype %s struct {\n\t// A is a field.\n\tA int32 `json:\"a\"`\n\t// B is a field.\n\tB []string `json:\"b,omitempty\"`\n\t// C is a field.\n\tC *float64\n}\n\n", name, name)
+		g.plain = append(g.plain, name)
 	}
 	ns := rapid.IntRange(2, 5).Draw(t, "nstructs")
 	for i := 0; i < ns; i++ {
